@@ -7,9 +7,16 @@
                       runtime's fatal error on a misused RWMutex; Stuck = ls is not a schedule
    clean c          : the defect switch runlock_after_lock is off
    Every statement holds for every number of goroutines, every assignment of endpoint
-   addresses to them, every schedule and every outcome of the dials. *)
+   addresses to them, every schedule and every outcome of the dials.
+
+   The C19_life_* theorems are about the LIFE of the pool (theories/SessionLife.v):
+   lexec c linit es : run the events es on a fresh session: LSpawn epss (new requests arrive, one
+                      per entry of epss), LStep l (one instruction of one request), LLose a (the
+                      pooled connection to address a is lost, between two bursts: it is closed and
+                      its closer — Lock; delete; Unlock — runs)
+   They hold for every sequence of events. *)
 From Coq Require Import List.
-From QV Require Import Session SessionProofs.
+From QV Require Import Session SessionProofs SessionLife SessionLifeProofs.
 Import ListNotations.
 
 (* the process does not crash *)
@@ -90,3 +97,65 @@ Example C19_nonvacuous :
             s_pool (st_sh s) = [(0, 0)] /\ s_open (st_sh s) = [0] /\
             map t_res (st_thr s) = [Returned 0; Returned 0].
 Proof. exact wit_clean_ok. Qed.
+
+(* ---------- the life of the pool: bursts of requests, losses of pooled connections ---------- *)
+
+Theorem C19_life_no_fatal : forall c, clean c -> forall es, lexec c linit es <> Fatal.
+Proof. exact life_no_fatal. Qed.
+Print Assumptions C19_life_no_fatal.
+
+Theorem C19_life_one_client_per_address : forall c, clean c -> forall es s,
+  lexec c linit es = Run s -> NoDup (map fst (s_pool (st_sh s))).
+Proof. exact life_one_client_per_address. Qed.
+Print Assumptions C19_life_one_client_per_address.
+
+(* the moment a request returns — first burst or after any number of losses — the client it
+   returns is the pooled client of one of the addresses of its service, over an open connection *)
+Theorem C19_life_request_returns_live_client : forall c, clean c -> forall es s,
+  lexec c linit es = Run s -> forall i ch s' t' cl,
+  step s (i, ch) = Run s' -> nth_error (st_thr s') i = Some t' -> t_res t' = Returned cl ->
+  mem cl (s_open (st_sh s')) = true /\ exists a, In a (t_eps t') /\ lookup a (s_pool (st_sh s')) = Some cl.
+Proof. exact life_request_returns_live_client. Qed.
+Print Assumptions C19_life_request_returns_live_client.
+
+(* at any time, a client that was returned and whose connection is still up is the pooled one:
+   requests after a loss share the new connection with each other, requests before it keep
+   sharing the old one as long as it lives *)
+Theorem C19_life_live_client_is_pooled : forall c, clean c -> forall es s,
+  lexec c linit es = Run s -> forall i t cl,
+  nth_error (st_thr s) i = Some t -> t_res t = Returned cl -> mem cl (s_open (st_sh s)) = true ->
+  exists a, In a (t_eps t) /\ lookup a (s_pool (st_sh s)) = Some cl.
+Proof. exact life_live_client_is_pooled. Qed.
+Print Assumptions C19_life_live_client_is_pooled.
+
+(* between the bursts every open connection is a pooled one: at most one per remote endpoint *)
+Theorem C19_life_open_are_pooled : forall c, clean c -> forall es s,
+  lexec c linit es = Run s -> forall x,
+  all_done s = true -> In x (s_open (st_sh s)) -> pooled x (s_pool (st_sh s)) = true.
+Proof. exact life_open_are_pooled. Qed.
+Print Assumptions C19_life_open_are_pooled.
+Theorem C19_life_one_connection_per_address : forall c, clean c -> forall es s,
+  lexec c linit es = Run s -> forall x y t u a,
+  all_done s = true -> In x (s_open (st_sh s)) -> In y (s_open (st_sh s)) ->
+  nth_error (st_thr s) x = Some t -> nth_error (st_thr s) y = Some u ->
+  t_sel t = Some a -> t_sel u = Some a -> x = y.
+Proof. exact life_one_connection_per_address. Qed.
+Print Assumptions C19_life_one_connection_per_address.
+
+(* the session forgets a lost connection (the next request for that address dials again) *)
+Theorem C19_life_loss_forgets : forall a s s', lose a s = Run s' -> lookup a (s_pool (st_sh s')) = None.
+Proof. exact lose_forgets. Qed.
+Print Assumptions C19_life_loss_forgets.
+
+Theorem C19_life_no_deadlock : forall c, clean c -> forall es s,
+  lexec c linit es = Run s -> all_done s = false -> exists l s', step s l = Run s'.
+Proof. exact life_no_deadlock. Qed.
+Print Assumptions C19_life_no_deadlock.
+
+(* request, loss, request: the second request gets a new client over a new connection *)
+Theorem C19_life_witness :
+  exists s, lexec cfg_clean linit wit_life = Run s /\ all_done s = true /\
+            s_pool (st_sh s) = [(0, 1)] /\ s_open (st_sh s) = [1] /\
+            map t_res (st_thr s) = [Returned 0; Returned 1].
+Proof. exact wit_life_ok. Qed.
+Print Assumptions C19_life_witness.
